@@ -14,7 +14,7 @@ func countT(msgs []hwebsocket.Msg, t hagallpb.MsgType) int { return countType(ms
 // (subscribe / unsubscribe / departure of a subscriber / nothing), then one component change by a0 or a1;
 // the recipients must be exactly those a reference predicate names.
 func VerifC13Notify() {
-	s := newStepWorld(stepShape{freeBits: false, preset: 0, mods: 0, par: nil, noFree: true})
+	s := newStepWorld(stepShape{freeBits: false, preset: 0, mods: 0, par: nil, noFree: true, prior: verifnd.Tier() == 1 && verifnd.Bool()})
 	// free subscription bits on top of the preset world: rebuild subscriptions explicitly
 	sub := [3]bool{s.sub0, s.sub1, s.sub2}
 	conns := []*vConn{s.a0, s.a1, s.a2}
